@@ -150,6 +150,7 @@ def reachable_types(model):
 def _tag(model, name, cxx):
     t = type_index(model)[name]
     k = t["kind"]
+    name = t.get("cname", name)   # TU-private types: several model types share one C-level name
     q = name
     if cxx:
         if t.get("ns"):
@@ -228,7 +229,7 @@ def render_typedef(model, t, cxx):
     out = []
     if k in ("struct", "union", "class"):
         kw = k if (cxx or k != "class") else "struct"
-        head = kw + " " + t["name"]
+        head = kw + " " + t.get("cname", t["name"])
         if t.get("bases"):
             head += " : " + ", ".join(
                 (b.get("access", "public") + " " + ("virtual " if b.get("virtual") else "") + _tag(model, b["name"], True))
@@ -248,7 +249,7 @@ def render_typedef(model, t, cxx):
                        + (" const" if me.get("const") else "") + ";")
         out.append("};")
     elif k == "enum":
-        head = "enum " + ("class " if t.get("scoped") else "") + t["name"]
+        head = "enum " + ("class " if t.get("scoped") else "") + t.get("cname", t["name"])
         if t.get("underlying"):
             head += " : " + t["underlying"]
         es = []
@@ -256,7 +257,7 @@ def render_typedef(model, t, cxx):
             es.append("  " + n + ("" if v is None else " = %s" % _lit(v)))
         out.append(head + " {\n" + ",\n".join(es) + "\n};")
     elif k == "typedef":
-        out.append("typedef " + decl(model, t["type"], t["name"], cxx) + ";")
+        out.append("typedef " + decl(model, t["type"], t.get("cname", t["name"]), cxx) + ";")
     elif k == "opaque":
         out.append("struct " + t["name"] + ";")
     return out
